@@ -197,6 +197,69 @@ func units(tier string) []runner.Unit {
 			u.Sample("every |d| in [120 s,600 s] on a 1 s grid, both signs: stamps refused; |d| >= 240 s: keys refused")
 		}})
 	}
+	// histories of one long-lived per-user decryptor (what the server keeps per registered user):
+	// a success at T1, then possibly successes with later keys, then the segment sealed at T1 again
+	for part := 0; part < 4; part++ {
+		part := part
+		us = append(us, runner.Unit{Name: fmt.Sprintf("decryptor-histories-%d", part), Cost: 3, Run: func(u *runner.U) {
+			var cnt int64
+			gaps := []int64{240, 241, 300, 359, 360, 480, 600, 3600, 10800, 86400}
+			for i, t1 := range ts {
+				if i%4 != part || (tier == "quick" && i%5 != 0) {
+					continue
+				}
+				for _, sign := range []int64{1, -1} {
+					for _, gap := range gaps {
+						for _, between := range []int{0, 1, 2} {
+							cnt++
+							at(t1)
+							mcipher.VerifReset()
+							dec, err := mcipher.NewStatelessDecryptor(password)
+							if err != nil {
+								u.Violation("C08/seal-failed", err.Error(), "", "")
+								return
+							}
+							ct1, _, err := seal()
+							if err == nil {
+								err = dec.VerifTryDecryptAt(ct1, world.Epoch.Add(time.Duration(t1)))
+							}
+							if err != nil {
+								u.Violation("C08/no-common-key", fmt.Sprintf("per-user decryptor at epoch+%v cannot open a segment sealed at the same instant: %v", time.Duration(t1), err), "", "")
+								return
+							}
+							t2 := t1 + sign*gap*1e9
+							// between: further successes on the way (the decryptor's history)
+							for k := 1; k <= between; k++ {
+								tm := t1 + sign*gap*1e9*int64(k)/int64(between+1)
+								at(tm)
+								if ctm, _, err := seal(); err == nil {
+									if err := dec.VerifTryDecryptAt(ctm, world.Epoch.Add(time.Duration(tm))); err != nil {
+										u.Violation("C08/no-common-key", fmt.Sprintf("per-user decryptor with history cannot open a segment sealed at its own instant epoch+%v: %v", time.Duration(tm), err), "", "")
+										return
+									}
+								}
+							}
+							at(t2)
+							if err := dec.VerifTryDecryptAt(ct1, world.Epoch.Add(time.Duration(t2))); err == nil {
+								u.Violation("C08/stale-key-accepted", fmt.Sprintf("a per-user decryptor that opened a segment sealed at epoch+%v (and %d later ones) opens that segment again at epoch+%v, %v away: the key was derived for an instant four or more minutes away", time.Duration(t1), between, time.Duration(t2), time.Duration(sign*gap*1e9)), "", "")
+								return
+							}
+							// and it still serves the present
+							if ct2, _, err := seal(); err == nil {
+								if err := dec.VerifTryDecryptAt(ct2, world.Epoch.Add(time.Duration(t2))); err != nil {
+									u.Violation("C08/no-common-key", fmt.Sprintf("per-user decryptor cannot open a segment sealed at its own instant epoch+%v after a history: %v", time.Duration(t2), err), "", "")
+									return
+								}
+							}
+						}
+					}
+				}
+			}
+			u.Eval(cnt)
+			u.DistinctN(cnt)
+			u.Sample("one per-user decryptor: success at T1, 0..2 successes on the way, then the T1 segment again at T1 +- {240 s ... 1 day}: refused; a fresh segment at that instant: accepted")
+		}})
+	}
 	us = append(us, runner.Unit{Name: "key-cache-histories", Cost: 5, Run: cacheBFS(tier)})
 	us = append(us, runner.Unit{Name: "handshake-skew", Cost: 5, Run: func(u *runner.U) {
 		pats := xfer.Patterns("quick")
